@@ -126,19 +126,19 @@ func makeAlphabet(tier string) (*alphabet, string) {
 		data:   [][]byte{nil, []byte("a"), []byte("b"), []byte("ab"), z8},
 		salt:   [][]byte{nil, []byte("a"), z8},
 		exts:   [][]string{nil, {"a"}, {"a", "b"}, {"ab"}},
-		metas:  [][]pairingtypes.Metadata{nil, md("a", "b"), md("ab", ""), md("", "ab")},
+		metas:  [][]pairingtypes.Metadata{nil, md("a", "b"), md("ab", ""), md("", "ab"), md("a", "b", "a", "a")}, // the last one repeats a header name
 		reqBlk: []int64{0, 1},
 		seenB:  []int64{0, 1},
 		reqIds: []string{"", "r"},
 	}
-	bound := `strings(Addon,ApiInterface,ConnectionType,ApiUrl) in {"",a,b,ab}; Data in {"",a,b,ab,le64(0)}; Salt in {"",a,le64(0)}; Extensions in {[],[a],[a,b],[ab]}; Metadata in {[],[(a,b)],[(ab,"")],[("",ab)]}; RequestBlock,SeenBlock in {0,1}; RequestId(not hashed) in {"",r}`
+	bound := `strings(Addon,ApiInterface,ConnectionType,ApiUrl) in {"",a,b,ab}; Data in {"",a,b,ab,le64(0)}; Salt in {"",a,le64(0)}; Extensions in {[],[a],[a,b],[ab]}; Metadata in {[],[(a,b)],[(ab,"")],[("",ab)],[(a,b),(a,a)]}; RequestBlock,SeenBlock in {0,1}; RequestId(not hashed) in {"",r}`
 	if tier == "thorough" {
 		a.strs = append(a.strs, "ba")
 		a.data = append(a.data, o8)
 		a.exts = append(a.exts, []string{"b", "a"})
-		a.metas = append(a.metas, md("a", "", "", "b"))
+		a.metas = append(a.metas, md("a", "", "", "b"), md("a", "b", "b", "a"), md("b", "a", "a", "b"))
 		a.reqBlk = append(a.reqBlk, -1)
-		bound = `strings(Addon,ApiInterface,ConnectionType,ApiUrl) in {"",a,b,ab,ba}; Data in {"",a,b,ab,le64(0),le64(1)}; Salt in {"",a,le64(0)}; Extensions in {[],[a],[a,b],[ab],[b,a]}; Metadata in {[],[(a,b)],[(ab,"")],[("",ab)],[(a,""),("",b)]}; RequestBlock in {0,1,-1}; SeenBlock in {0,1}; RequestId(not hashed) in {"",r}`
+		bound = `strings(Addon,ApiInterface,ConnectionType,ApiUrl) in {"",a,b,ab,ba}; Data in {"",a,b,ab,le64(0),le64(1)}; Salt in {"",a,le64(0)}; Extensions in {[],[a],[a,b],[ab],[b,a]}; Metadata in {[],[(a,b)],[(ab,"")],[("",ab)],[(a,b),(a,a)],[(a,""),("",b)],[(a,b),(b,a)],[(b,a),(a,b)]}; RequestBlock in {0,1,-1}; SeenBlock in {0,1}; RequestId(not hashed) in {"",r}`
 	}
 	return a, bound
 }
